@@ -9,6 +9,9 @@
 (*     triA   [ y += x ; x += d ; c += inc ]                               *)
 (*     triB   [ x += d ; y += x ; c += inc ]                               *)
 (*     geo    [ x := mul*x + i ; c += inc ]                                *)
+(*     geoT   [ x := mul*x + y + u ; y := 0 ; c += inc ]   (u a cell the   *)
+(*            loop leaves alone, y one it consumes: the increment is not   *)
+(*            loop-constant, the geometric closed form must not be used)   *)
 (* and the same bodies with a counter that is *set* at the end of the body *)
 (* (c := inc): 0 makes the loop an If, anything else a loop that is never  *)
 (* left once entered.                                                      *)
@@ -104,7 +107,7 @@ GeoLoop(bit, sum, pow, n, mul, W) ==
 GeoCode(n, mul, W) == GeoLoop(W - 1, 0, 1, n, mul, W)
 
 ----------------------------------------------------------------------------
-Forms == {"lin", "triA", "triB", "geo"}
+Forms == {"lin", "triA", "triB", "geo", "geoT"}
 SmallX(W) == IF W < MaxW \/ W <= 3 THEN 0..(M(W) - 1) ELSE {0, 1, 2, M(W) - 1}
 
 \* parameter sets: everything at the model-checking widths, a grid at the real width 8 for generation
@@ -136,7 +139,7 @@ Pick1 == /\ phase = "pick1"
 
 Pick2 == /\ phase = "pick2"
          /\ \E a \in ASet(w), x0 \in XSet(w),
-               b \in (IF form = "geo" THEN BSet(w) ELSE {0}) :
+               b \in (IF form \in {"geo", "geoT"} THEN BSet(w) ELSE {0}) :
               /\ par' = [par EXCEPT !.a = a, !.b = b, !.x0 = x0]
               /\ c' = par.m /\ x' = x0
          /\ phase' = (IF GEN = 1 THEN "emit" ELSE "run")
@@ -150,6 +153,7 @@ Iterate ==
        [] form = "triA" -> y' = (y + x) % MM /\ x' = (x + par.a) % MM
        [] form = "triB" -> x' = (x + par.a) % MM /\ y' = (y + x + par.a) % MM
        [] form = "geo"  -> x' = (par.a * x + par.b) % MM /\ y' = y
+       [] form = "geoT" -> x' = (par.a * x + y + par.b) % MM /\ y' = 0
   /\ c' = (IF ctr = "step" THEN (c + par.inc) % MM ELSE par.inc)
   /\ it' = it + 1
   /\ UNCHANGED <<w, form, known, ctr, par, phase>>
@@ -186,6 +190,13 @@ GeoOK ==
      /\ g[1] = IntOf(CPow(Cel(par.a, w), Cel(N, w), w), w)
      /\ par.b = 0 => x = (IntOf(CPow(Cel(par.a, w), Cel(N, w), w), w) * par.x0) % M(w)
 
+\* property level only (the optimiser must leave this accumulation in the loop): the consumed cell counts once
+GeoTOK ==
+  (phase = "exit" /\ form = "geoT" /\ N >= 1) =>
+     LET g == GeoCode(N, par.a, w)
+         p1 == IntOf(CPow(Cel(par.a, w), Cel(N - 1, w), w), w) IN
+     x = (g[1] * par.x0 + g[2] * par.b + p1 * (Y0 % M(w))) % M(w) /\ y = 0
+
 \* divergence is decided at entry: a loop predicted infinite is never left, one with a trip count is
 Classified == phase = "exit" => N # -1
 
@@ -201,9 +212,13 @@ Body ==
     [] form = "triA" -> ">" \o CopyXtoY \o Signed8(par.a) \o "<"
     [] form = "triB" -> ">" \o Signed8(par.a) \o CopyXtoY \o "<"
     [] form = "geo"  -> ">[->>" \o Signed8(par.a) \o "<<]>>[-<<+>>]<<" \o Signed8(par.b) \o "<"
+    [] form = "geoT" -> ">[->>" \o Signed8(par.a) \o "<<]>>[-<<+>>]<<" \o ">[-<+>]<"
+                        \o ">>>[-<<<+>>>>+<]>[-<+>]<<<<" \o "<"
 Text ==
   (IF known THEN Rep("+", par.m) ELSE ",") \o ">" \o (IF known THEN Rep("+", par.x0) ELSE ",")
-  \o ">+++<<" \o "[" \o Body \o (IF ctr = "set" THEN "[-]" ELSE "") \o Signed8(par.inc) \o "]" \o ".>.>.>."
+  \o (IF form = "geoT" THEN ">+++>>,<<<<" ELSE ">+++<<")    \* u always comes from the input: a cell whose
+                                                                \* value is unknown but which the loop leaves alone
+  \o "[" \o Body \o (IF ctr = "set" THEN "[-]" ELSE "") \o Signed8(par.inc) \o "]" \o ".>.>.>." \o (IF form = "geoT" THEN ">." ELSE "")
 \* the trip count by its definition (property level): the least n with m + n*inc = 0, -1 if there is none
 TripSpec(m, inc, W) ==
   LET S == {n \in 0..(M(W) - 1) : (m + n * inc) % M(W) = 0} IN
@@ -212,6 +227,7 @@ EmitCase ==
   phase = "emit" =>
     PrintT(ToJson([form |-> form, ctr |-> ctr, known |-> IF known THEN 1 ELSE 0, m |-> par.m, inc |-> par.inc,
                    a |-> par.a, b |-> par.b, x0 |-> par.x0, prog |-> Text,
-                   input |-> IF known THEN <<>> ELSE <<par.m, par.x0>>,
+                   input |-> IF form = "geoT" THEN (IF known THEN <<par.b>> ELSE <<par.m, par.x0, par.b>>)
+                             ELSE IF known THEN <<>> ELSE <<par.m, par.x0>>,
                    trip |-> IF ctr = "set" THEN TripSet(par.m, par.inc) ELSE TripSpec(par.m, par.inc, w)]))
 =============================================================================
